@@ -130,6 +130,8 @@ type FnCtx struct {
 	alog        []string // references allocated
 	freshOnly   map[any]bool
 	loopPkgInvs map[int][]*Clause
+	inContract  int
+	assignOrd   map[string]int
 	specDepth   int
 	qdepth      int
 	keyTypes    map[any]types.Type
